@@ -22,9 +22,10 @@
    for EVERY tree, every p >= 0 on M: pair-based right-hand side at the marginals of p = marginals of the master equation;
    C08tree_pure_ic_partial: (1) + (2) + (3) of Props/C08t.v for every tree.  (`_partial` only for the reason stated in
    Props/C08t.v: the lift from the identity of right-hand sides on the invariant set M to the returned curves is cited.)
+   C08tree_usual_treeb_iff: the executable usual_treeb decides (b), (c) and the existence of a tree order.
    Instances for every n: C08tree_every_path_accepted, C08tree_every_star_accepted; caterpillar etc. by evaluation. *)
 From EoNV Require Import Prelude Graph Vec VecP Rhs2D Rhs2DP Rhs2 Rhs2GenP Master C08tG C08tS C08tT C08tR C08tA C08tO C08tF C08tC
-  C08tTreeA C08tTreeB C08tTreeC C08tTreeD C08tTreeE C08tTreeG C08tTreeH C08tTreeI.
+  C08tTreeA C08tTreeB C08tTreeC C08tTreeD C08tTreeE C08tTreeG C08tTreeH C08tTreeI C08tTreeJ.
 
 (* ---------------- the definition: boolean test = inductive pendant-vertex construction ---------------- *)
 Theorem C08tree_pendant_iff : forall (adj : nat -> nat -> bool) ord,
@@ -142,6 +143,14 @@ Theorem C08tree_connected_acyclic_exact_on_M : forall G tr rc, wf_graphb G = tru
       (marginals G nodelist (master_rhs G nodelist idx tr rc p)).
 Proof. exact connected_acyclic_exact. Qed.
 
+(* usual_treeb DECIDES tree-ness (the bounded search is complete as well as sound) *)
+Theorem C08tree_usual_treeb_iff : forall G nodelist,
+  (usual_treeb G nodelist = true <->
+   noloopb G nodelist = true /\ pos_connected G nodelist /\ pos_degsum G nodelist = (2 * (nN nodelist - 1))%nat) /\
+  (usual_treeb G nodelist = true <-> noloopb G nodelist = true /\ exists ord, tree_orderb G nodelist ord = true) /\
+  (usual_treeb G nodelist = true <-> noloopb G nodelist = true /\ pos_connected G nodelist /\ pos_acyclic G nodelist).
+Proof. exact usual_treeb_iff. Qed.
+
 (* ---------------- two infinite families, every n: paths 0 - 1 - .. - (n-1) and stars with n leaves ---------------- *)
 Theorem C08tree_every_path_is_tree : forall n, tree_orderb (path_graph n) (nodes_upto n) (seq 0 n) = true.
 Proof. exact path_order. Qed.
@@ -236,6 +245,7 @@ Print Assumptions C08tree_tree_iff_connected_acyclic_pos.
 Print Assumptions C08tree_tree_okb_iff.
 Print Assumptions C08tree_connected_acyclic_accepted.
 Print Assumptions C08tree_connected_acyclic_exact_on_M.
+Print Assumptions C08tree_usual_treeb_iff.
 Print Assumptions C08tree_every_path_is_tree.
 Print Assumptions C08tree_every_star_is_tree.
 Print Assumptions C08tree_every_path_accepted.
